@@ -50,21 +50,27 @@ Definition sp_braced (l : list N) : option (N * option N * list N) :=
   | [] => None
   end.
 Definition bounds_ok (n : N) (om : option N) : bool := match om with Some m => n <=? m | None => true end.
-(* Quantifier(opt) as consume_quantifier(no_error) reads it: with no_error nothing is an error; otherwise bounds out of
-   order are, and with u so is a `{` that does not start a quantifier *)
+Definition starts_with (c : N) (l : list N) : bool := match l with x :: _ => x =? c | [] => false end.
+(* the braced quantifier as eat_braced_quantifier(no_error) reads it: with no_error nothing is an error; otherwise
+   bounds out of order are, and with u so is a `{` that does not start a quantifier *)
+Definition sp_brq (u no_error : bool) (l : list N) : SR bool :=
+  match sp_braced l with
+  | Some (n, om, r') => if negb no_error && negb (bounds_ok n om) then SErr else SOk true r'
+  | None => if negb no_error && u && starts_with g_lbrace l then SErr else SOk false l
+  end.
+(* Quantifier(opt) *)
 Definition sp_quant (u no_error : bool) (l : list N) : SR bool :=
   match l with
   | c :: r =>
       if is_quant_char c then SOk true (skip_lazy r)
-      else if c =? g_lbrace then
-        match sp_braced l with
-        | Some (n, om, r') => if negb no_error && negb (bounds_ok n om) then SErr else SOk true (skip_lazy r')
-        | None => if negb no_error && u then SErr else SOk false l
-        end
-      else SOk false l
+      else match sp_brq u no_error l with
+           | SOk true r' => SOk true (skip_lazy r')
+           | SOk false r' => SOk false r'
+           | SErr => SErr
+           | SFuel => SFuel
+           end
   | [] => SOk false l
   end.
-Definition starts_with (c : N) (l : list N) : bool := match l with x :: _ => x =? c | [] => false end.
 
 Definition is_eq_or_bang (c : N) : bool := (c =? g_equals) || (c =? g_bang).
 (* is the assertion that starts here a QuantifiableAssertion of Annex B (a look-ahead, without u)? *)
@@ -133,8 +139,7 @@ Definition sp_atom (l : list N) : SR bool :=
   match l with
   | [] => SOk false l
   | c :: r =>
-      if negb (syntax_character c) then SOk true r
-      else if c =? g_dot then SOk true r
+      if c =? g_dot then SOk true r
       else if c =? g_backslash then sp_escape u l
       else if c =? g_lparen then
         match r with
@@ -147,12 +152,15 @@ Definition sp_atom (l : list N) : SR bool :=
             else sp_group_body r
         | [] => sp_group_body r
         end
-      else if u then SOk false l
-      else if c =? g_lbrace then
+      else if u then (if negb (syntax_character c) then SOk true r else SOk false l)
+      else
         (* Annex B: InvalidBracedQuantifier (an early error) before ExtendedPatternCharacter *)
-        match sp_braced l with Some _ => SErr | None => SOk true r end
-      else if (c =? g_rbrace) || (c =? g_rbracket) then SOk true r
-      else SOk false l
+        match sp_brq u true l with
+        | SOk true _ => SErr
+        | SOk false _ => if extended_pattern_character c then SOk true r else SOk false l
+        | SErr => SErr
+        | SFuel => SFuel
+        end
   end.
 Definition sp_quantified (r : list N) : SR bool :=
   match sp_quant u false r with
